@@ -100,11 +100,15 @@ def check_case(rng, X, desc):
     sd = np.sqrt(np.diag(S))
     t_big = sd * 1e7 * rng.choice([-1.0, 1.0], d)
     for name, Y, fmu, fS in (
+            ("identity", X, lambda m: m, lambda C: C),
             ("translation-far", X + t_big, lambda m: m + t_big, lambda C: C),
             ("scaling", X * s, lambda m: m * s, lambda C: C * np.outer(s, s)),
             ("translation", X + t, lambda m: m + t, lambda C: C),
             ("permutation", X[:, p], lambda m: m[p], lambda C: C[np.ix_(p, p)])):
         try:
+            # every fit of a pair runs under another ambient state of the global random stream: the estimate is a function
+            # of the data, not of the stream
+            np.random.seed(int(rng.integers(2 ** 31)))
             mu2, S2, nu2 = fit(Y)
         except Exception as e:
             bad.append((f"fit-exception-{name}", f"fit raised {e} on the {name}-transformed data"))
@@ -237,6 +241,17 @@ def recovery(seed, nu, d, n):
     return bad, float(nuh)
 
 
+def big_case(seed, n, d, nu):
+    """fit_mvstud on more than 2**20 rows (size thresholds, chunked or subsampled paths)."""
+    rng = np.random.default_rng(seed)
+    A = rng.standard_normal((d, d)) + 2 * np.eye(d)
+    g = rng.chisquare(nu, n) / nu
+    X = (rng.standard_normal((n, d)) / np.sqrt(g)[:, None]) @ A.T + rng.standard_normal(d)
+    desc = dict(n=n, d=d, nu=nu, kind="t-big")
+    bad, nuh = check_case(rng, X, desc)
+    return bad, desc
+
+
 def _batch(seed, start, count):
     os.environ["VERIF_SEED"] = str(seed)
     ck = Check("C19")
@@ -298,6 +313,19 @@ def run():
     ck.tables["recovered_nu"] = out
     ck.require_events("fit_mvstud well-posedness + 3 equivariance pairs", "recovery on 2e4 multivariate-t samples",
                       "mode fits on particles squeezed into a tiny part of the cube compared with the squeezed image")
+    btasks = [("tvf.checks.c19:big_case", dict(seed=ck.subseed("big", j), n=n_, d=d_, nu=nu_), None)
+              for j, (n_, d_, nu_) in enumerate(ck.pick([(2 ** 20 + 4097, 2, 3.0)], [(2 ** 20 + 4097, 2, 3.0), (2 ** 21 + 1, 3, 5.0), (2 ** 20 + 1, 1, 2.0), (3_000_001, 2, 30.0)]))]
+    for i, st, val in farm.run(btasks, timeout=1500, progress="C19-big"):
+        kw = btasks[i][1]
+        if st != "ok":
+            ck.inconc(f"big case {kw}: {st} {str(val)[:300]}")
+            continue
+        bad, desc = val
+        ck.case(desc, nontrivial=True)
+        ck.event("fits on more than 2**20 rows with 5 equivariance pairs")
+        for key, what in bad:
+            ck.violation(key, what, dict(big=kw))
+    ck.require_events("fits on more than 2**20 rows with 5 equivariance pairs")
     return ck.finish(
         rule="data sets from VERIF_SEED: d 1..8, n >= 4d (up to 1500), Gaussian / multivariate-t (nu 1.5..30) / skewed / 5%-contaminated / "
              "uniform / rho=0.95; equivariance pairs under per-coordinate scaling 1e-6..1e6, translation, coordinate permutation (rtol 1e-4); "
@@ -313,6 +341,10 @@ def replay(rec):
         r = _batch(rec["seed"], w["stream"][1], 1)
         print(r[0][2] or "held")
         return 1 if r[0][2] else 0
+    if "big" in w:
+        bad, desc = big_case(**w["big"])
+        print(bad or "held")
+        return 1 if bad else 0
     if "nu" in w:
         bad, nuh = recovery(**w)
         print(bad or "held", nuh)
